@@ -407,6 +407,18 @@ pub fn scenario(family: &str, seed: u64) -> Scenario {
             sc.deadline_us = 30_000_000;
             sc.linger_us = 200_000;
         }
+        // base scenario for the TLC-enumerated fault schedules: everything fixed but the schedule (four variants by seed)
+        "enum" => {
+            net.delay_us = 10_000;
+            let v = seed % 4;
+            sc.streams = vec![
+                StreamSpec { opener: "c".into(), bidi: true, send: 3_000, reply: 3_000, chunk: 1_000, reply_chunk: 1_000, finish: true, ..Default::default() },
+                StreamSpec { opener: if v % 2 == 0 { "s".into() } else { "c".into() }, bidi: false, send: 1_500, chunk: 1_500, finish: true,
+                             reset_at: if v == 3 { Some(1_000) } else { None }, ..Default::default() },
+            ];
+            if v >= 2 { for l in [&mut sc.c, &mut sc.s] { l.sd_bidi_remote = 1_000; l.sd_bidi_local = 1_000; l.sd_uni = 1_000; } }
+            sc.deadline_us = 60_000_000;
+        }
         // the network dies for good at some point of the handshake or transfer: both applications must learn it
         "blackhole" => {
             let at = pick(rng, &[1_000u64, 30_000, 90_000, 200_000, 600_000, 2_000_000]);
